@@ -356,15 +356,48 @@ class NatGen(libgen.Gen):
         self.free_extra.append(later)
 
     # ---- item assignment
-    def x_setitem(self, cls, ind):
-        r = self.r
-        q, name = cls["qname"], cls["name"]
-        if any(m["name"] == "operator []" for m in cls["methods"]):
+    def can_setitem(self, cls):
+        """Python type slots are inherited as a whole (a base's mapping slot even shadows a derived class's sequence
+        slot), while a C++ operator [] merely hides the base's: item assignment is only generated where neither the
+        class nor any ancestor or descendant declares operator [] / size()"""
+        if cls.get("item_array"):
+            return False
+        q = cls["qname"]
+
+        def anc(qq):
+            for b in self.classes[qq]["bases"]:
+                yield b["qname"]
+                yield from anc(b["qname"])
+        related = {q} | set(anc(q)) | {c["qname"] for c in self.classes.values() if q in set(anc(c["qname"]))}
+        return not any(m["name"] in ("operator []", "size") for r_ in related for m in self.classes[r_]["methods"])
+
+    def const_handles(self, cls, ind):
+        """sources of const views of an instance (methods returning this as const K* / const K&)"""
+        if any(m.get("returns") == "this" and m["ret"].get("mode") in ("cptr", "cref") for m in cls["methods"]):
             return
-        for b in cls["bases"]:
-            if any(m["name"] in ("operator []", "size") for m in self.classes[b["qname"]]["methods"]):
-                return
-        seq = r.random() < 0.5
+        for mode in ("cptr", "cref"):
+            f = self.emit(cls, "method", self.ident("hnd_"), [], ret=T("obj", cls=cls["qname"], mode=mode), const=True, ind=ind,
+                          feature="constpair")
+            self.force_return_this(cls, f)
+
+    def x_setitem(self, cls, ind, seq=None):
+        r = self.r
+        explicit_seq = seq is not None
+        q, name = cls["qname"], cls["name"]
+        if not self.can_setitem(cls):
+            return
+        if seq is None:
+            seq = r.random() < 0.5
+
+        def anc(qq):
+            for b in self.classes[qq]["bases"]:
+                yield b["qname"]
+                yield from anc(b["qname"])
+        if not seq and any(m["name"] == "size" for b in anc(q) for m in self.classes[b]["methods"]):
+            if explicit_seq:
+                return False     # an inherited size() could turn the mapping variant into a sequence
+            seq = True
+        self.const_handles(cls, ind)
         e1 = self.new_eid()
         arr = "vf_arr_" + name
         self.h.append(f"{ind}int &operator [](int idx);")
@@ -379,15 +412,20 @@ class NatGen(libgen.Gen):
                   static=False, params=[P("idx", T("int", c="int"))], ret=T("int", c="int"), doc=None, lib=self.name,
                   ret_owner="value", operator="[]", feature="setitem", item_ref=True, seq=seq)
         cls["methods"].append(f1)
-        f2 = self.gen_function(cls, "method", name="operator []", ret=T("int", c="int"), params=[P("idx", T("int", c="int"))],
-                               const=True, indent=ind)
-        # the const overload reads the same storage
-        i = len(self.cx) - 1
-        while "vf_r = vf::make_int" not in self.cx[i]:
-            i -= 1
-        self.cx[i] = f"  int vf_r = {arr}[(unsigned)idx % 4u];"
-        f2.update(operator="[]c", feature="setitem", item_ref=False, seq=seq, fixed_result="arr")
-        cls["methods"].append(f2)
+        if not any(m["name"] == "operator []" and m.get("const") for m in cls["methods"][:-1]):
+            f2 = self.gen_function(cls, "method", name="operator []", ret=T("int", c="int"), params=[P("idx", T("int", c="int"))],
+                                   const=True, indent=ind)
+            # the const overload reads the same storage
+            i = len(self.cx) - 1
+            while "vf_r = vf::make_int" not in self.cx[i]:
+                i -= 1
+            self.cx[i] = f"  int vf_r = {arr}[(unsigned)idx % 4u];"
+            f2.update(operator="[]c", feature="setitem", item_ref=False, seq=seq, fixed_result="arr")
+            cls["methods"].append(f2)
+        else:
+            for m in cls["methods"]:
+                if m["name"] == "operator []" and m.get("const"):
+                    m["seq"] = seq
         if seq:
             s = self.gen_function(cls, "method", name="size", ret=T("int", c="int"), params=[], const=True, indent=ind)
             self.fix_body_return(s, "4")
@@ -467,6 +505,24 @@ class NatGen(libgen.Gen):
     # ---- whole library
     def generate(self, n_classes=None, ns=None, dep_bases=()):
         super().generate(n_classes=n_classes or self.r.choice([3, 4]), ns=ns, dep_bases=dep_bases)
+        # every library has a class with int item assignment through the sequence protocol (operator[] + size()) and
+        # one through the mapping protocol, each with sources of const views: added after the fact where the deck did
+        # not deal them
+        for want in (True, False):
+            if any(c.get("item_array", {}).get("seq") == want for c in self.model["classes"]):
+                continue
+            for c in self.model["classes"]:
+                if "::" in c["qname"] or not self.can_setitem(c) or c.get("item_array"):
+                    continue
+                at = next(i for i, l in enumerate(self.h) if l == f"  unsigned long long st_{c['name']};") - 1
+                assert self.h[at] == "public:", self.h[at]
+                extra = self.capture(lambda: self.x_setitem(c, "  ", seq=want))
+                if not c.get("item_array"):
+                    continue
+                self.h[at:at] = extra
+                c.setdefault("features", []).append("setitem")
+                self.feat("setitem")
+                break
         # raw public members requested by extras (arrays for item assignment)
         for c in self.model["classes"]:
             for line in c.get("raw_public", []):
